@@ -27,7 +27,11 @@ PERR_CLASS = {
 
 
 def _frame_fields(f):
-    return (int(f.frame_type), int(f.recipient), int(f.sender), int(f.econet_type), int(f.econet_version), hexs(f.message))
+    """never raises: reading a delivered frame's fields may raise on a modified tree (that is judged where the fields are used)"""
+    try:
+        return (int(f.frame_type), int(f.recipient), int(f.sender), int(f.econet_type), int(f.econet_version), hexs(f.message))
+    except Exception as e:  # noqa: BLE001
+        return ("!" + type(e).__name__,)
 
 
 def check_fresh(kept, problems):
@@ -39,10 +43,7 @@ def check_fresh(kept, problems):
             problems.append((i, "same-object", dict(earlier_call=seen[id(f)], fields=list(at_delivery))))
         else:
             seen[id(f)] = i
-        try:
-            now = _frame_fields(f)
-        except Exception as e:  # noqa: BLE001
-            now = ("!" + type(e).__name__,)
+        now = _frame_fields(f)
         if now != at_delivery:
             problems.append((i, "changed-after-delivery", dict(at_delivery=list(at_delivery), later=list(now))))
 
